@@ -769,6 +769,25 @@ write and at read time (the reader's key lists may be longer: rotations). -/
 section TranslatorOps
 open AcraModel.Envelope.Translator AcraModel.Searchable
 
+/-- What the model takes from `service.go` (regenerated on every run): the eight operations exist; each
+tests the client id in the form the model uses (`len(clientID) == 0` for `Encrypt`/`Decrypt`,
+`clientID == nil` for the other six), refuses an additional context, and does both before touching the
+key store or a handler; each asks the registry for the envelope handler of the kind the model uses
+(AcraStruct for `Encrypt`/`Decrypt`/`…Searchable`, AcraBlock for the `…Sym…` operations) and calls
+`EncryptWithHandler` resp. `DecryptWithHandler` exactly once; the searchable decrypts prepend a non-nil
+`hash` argument and verify the decrypted data against the hash with the client's HMAC key; the
+searchable encrypts return `GenerateHMAC(key of clientID, data)`. -/
+theorem fact_translator_ops :
+    (TranslatorOps.ops.map (·.1)).length = 8 ∧
+    (∀ row ∈ TranslatorOps.ops, rowSpec row ≠ none ∧ rowSpec row = opSpec row.1) ∧
+    TranslatorOps.ops.map (fun row => (row.1, row.2.2.2.2)) =
+      [("Decrypt", "DecryptWithHandler"), ("Encrypt", "EncryptWithHandler"),
+       ("EncryptSearchable", "EncryptWithHandler"), ("DecryptSearchable", "DecryptWithHandler"),
+       ("EncryptSymSearchable", "EncryptWithHandler"), ("DecryptSymSearchable", "DecryptWithHandler"),
+       ("EncryptSym", "EncryptWithHandler"), ("DecryptSym", "DecryptWithHandler")] ∧
+    TranslatorOps.searchableDecrypts = [("DecryptSearchable", true, true), ("DecryptSymSearchable", true, true)] ∧
+    TranslatorOps.searchableEncrypts = [("EncryptSearchable", true), ("EncryptSymSearchable", true)] := by decide
+
 /-- Every one of the eight operations refuses a request without client id and a request that carries
 an additional context – with an error, before touching any key (no alarm either). -/
 theorem translator_rejects_bad_request (c : CryptoOps) (st : Store) (data rnd : Bytes) (hash clientID addCtx : Option Bytes)
